@@ -26,6 +26,7 @@ EX = A + "execution::"
 def check(run):
     D.ob_state_mutations(run, "O20.4", ['execution::DummyExecution', 'execution::BlockExec'], 'block execution records are written once per block and folded in order')
     prog = run.program("lib")
+    ob_trie_lookup(run, "O20.5")
 
     # ------------------------------------------------------------------ O20.1
     o = run.ob("O20.1", "fork isolation by typing: no unsafe, Freeze nodes, only Arc::make_mut/get_mut yield &mut into shared nodes, no &mut Node / Arc<Node> escapes",
@@ -201,3 +202,161 @@ def witness(run, oid):
         return
     for name, ok, detail in W.expect(['StateSharedWriteFails', 'StateSharedWriteTwin', 'ForkIsAValueTwin'], res):
         o.check(ok, "witness|" + name, "doctest %s behaves as expected (%s)" % (name, "must not compile" if name.endswith("Fails") else "compiles"), "witness/src/lib.rs", {"detail": detail})
+
+
+EQ_NAMES = ("core::cmp::impls::eq", "core::array::equality::eq", "core::cmp::PartialEq::eq")
+
+
+def _is_leaf_key(t):
+    return K.is_field(t, "key", "Leaf")
+
+
+def ob_trie_lookup(run, oid):
+    """the three trie walks (get / insert_rec / remove_rec) decide 'this leaf holds the key' by one whole-key equality, gate their
+    verdicts on it, and navigate by chunk_at(key, depth) with depth growing by one per level"""
+    prog = run.program("lib")
+    o = run.ob(oid, "trie walks: a leaf is a hit only by whole-key equality with the looked-up key; verdicts are gated on it; navigation is chunk_at(key, depth), depth+1 per level",
+               "the path only proves that the consumed 5-bit chunks agree; a partial comparison at the leaf (or a walk that skips a level) answers lookups for keys that "
+               "are not in the map, and get/insert/remove disagree with each other", floor=19)
+    spec = {"State::get": 2, "State::insert_rec": 3, "State::remove_rec": 3}
+    for fn, kpos in spec.items():
+        b = prog.body(ST + fn)
+        if b is None:
+            o.missing(fn)
+            continue
+        key = fn
+        consumers = []
+        for c in b.calls():
+            ts = [b.operand_term(a) for a in c.args]
+            if any(_is_leaf_key(t) for t in ts):
+                consumers.append((c, ts))
+        good = [c for (c, ts) in consumers if c.name in EQ_NAMES and len(ts) == 2 and any(_is_leaf_key(t) for t in ts) and any(K.is_arg(b, t, kpos) for t in ts)]
+        o.check(len(consumers) == 1 and len(good) == 1, key + "|whole-key-equality", "the stored key is consumed by exactly one comparison: leaf.key == key (whole address)",
+                consumers[0][0].span if consumers else b.span, {"consumers": [(c.name, [mir.show(t)[:80] for t in ts]) for (c, ts) in consumers]})
+        if len(good) != 1:
+            continue
+        eqc = good[0]
+        eqt = b.call_term(eqc.bb, b.blocks[eqc.bb]["term"])
+
+        def is_eq_atom(a, pol):
+            return a[0] == "eq" and a[2] is pol and any(_is_leaf_key(x) for x in a[1]) and any(K.is_arg(b, x, kpos) for x in a[1])
+
+        if fn == "State::get":
+            defs = b.defs().get(0, [])
+            okd = bool(defs)
+            shapes = []
+            for d in defs:
+                if d[0] == "call":
+                    c = d[3] if isinstance(d[3], mir.CallSite) else None
+                    cs = [x for x in b.calls() if x.bb == d[1]]
+                    c = cs[0] if cs else None
+                    nm = c.name.rsplit("::", 1)[-1] if c else "?"
+                    shapes.append(nm)
+                    if nm == "then_some":
+                        a0, a1 = b.operand_term(c.args[0]), b.operand_term(c.args[1])
+                        okd = okd and a0[0] == "call" and a0[1] in EQ_NAMES and a0[3] == eqc.bb and K.mentions_field(a1, "value", "Leaf")
+                    elif nm == "from_residual":
+                        pass
+                    else:
+                        okd = False
+                else:
+                    t = b.rvalue_term(d[3]["rv"])
+                    shapes.append(mir.show(t)[:60])
+                    ats = G.guard_atoms(b, d[1], prog)
+                    if isinstance(t, tuple) and t[0] == "agg" and "Some" in str(t):
+                        okd = okd and any(is_eq_atom(a, True) for a in ats)
+                    elif isinstance(t, tuple) and t[0] == "agg" and "None" in str(t):
+                        pass
+                    else:
+                        okd = False
+            o.check(okd, key + "|hit-gated", "get returns the leaf's value only as (leaf.key == key).then_some(value); misses are None", b.span, {"result_defs": shapes})
+        if fn == "State::insert_rec":
+            rep = [c for c in b.calls() if c.name.endswith("mem::replace")]
+            spl = [c for c in b.calls() if c.name == ST + "split_leaves"]
+            o.check(len(rep) == 1 and any(is_eq_atom(a, True) for a in G.guard_atoms(b, rep[0].bb, prog)), key + "|replace-on-equal", "the value is replaced in place only when leaf.key == key",
+                    rep[0].span if rep else b.span)
+            o.check(len(spl) == 1 and any(is_eq_atom(a, False) for a in G.guard_atoms(b, spl[0].bb, prog)), key + "|split-on-different", "the leaf is split only when leaf.key != key",
+                    spl[0].span if spl else b.span)
+            ic = [c for c in b.calls() if c.name == ST + "Branch::insert_child"]
+            okc = len(ic) == 1 and any(a[0] == "is_some" and a[2] is False and K.mentions_call(a[1][0], "child_index") for a in G.guard_atoms(b, ic[0].bb, prog))
+            o.check(okc, key + "|new-leaf-on-empty-slot", "a new leaf goes into the slot only when child_index(chunk) is None", ic[0].span if ic else b.span)
+        if fn == "State::remove_rec":
+            rc = [c for c in b.calls() if c.name == ST + "Branch::remove_child"]
+            okr = False
+            if len(rc) == 1:
+                # leaf_matches = Some(leaf.key == key) in the Leaf arm; the removal is gated on leaf_matches == Some(true)
+                lm = None
+                for (bb, rv, sp, dst) in b.aggregates("core::option::Option", "Some"):
+                    t = b.operand_term(rv["ops"][0])
+                    if t[0] == "call" and t[1] in EQ_NAMES and t[3] == eqc.bb and not dst["p"]:
+                        lm = dst["l"]
+                if lm is not None:
+                    ats = G.guard_atoms(b, rc[0].bb, prog)
+                    okr = any(a[0] == "bool" and a[2] is True and K.mentions(a[1][0], lambda t: t[0] == "local" and t[1] == lm) for a in ats)
+            o.check(okr, key + "|remove-on-equal", "a leaf is removed only when leaf.key == key", rc[0].span if rc else b.span)
+        # navigation
+        ch = [c for c in b.calls() if c.name == ST + "chunk_at"]
+        okn = len(ch) == 1
+        if okn:
+            a0, a1 = b.operand_term(ch[0].args[0]), b.operand_term(ch[0].args[1])
+            okn = K.is_arg(b, a0, kpos)
+            if fn == "State::get":
+                # depth: a local initialised to 0 and only ever incremented by one
+                dl = a1[1] if a1[0] == "local" else None
+                ds = b.defs().get(dl, []) if dl is not None else []
+                terms = [b.rvalue_term(d[3]["rv"]) for d in ds if d[0] == "stmt"]
+                consts = [K.const_eval(t) for t in terms]
+                incs = [t for t in terms if K.const_eval(t) is None]
+                okn = okn and len(ds) == len(terms) == 2 and 0 in consts and len(incs) == 1 and _is_inc(incs[0], lambda x: x[0] == "local" and x[1] == dl)
+            else:
+                okn = okn and K.is_arg(b, a1, 2)
+        o.check(okn, key + "|chunk_at(key, depth)", "the child is selected by chunk_at(key, depth)", ch[0].span if ch else b.span)
+        if fn != "State::get":
+            rec = [c for c in b.calls() if c.name == ST + fn]
+            okrec = len(rec) == 1
+            if okrec:
+                ts = [b.operand_term(a) for a in rec[0].args]
+                okrec = _is_inc(ts[1], lambda x: K.arg_pred(b, 2)(x)) and K.is_arg(b, ts[2], kpos)
+            o.check(okrec, key + "|recursion-depth+1", "the recursive call descends with depth + 1 and the same key", rec[0].span if rec else b.span)
+    for pub, rec in (("State::insert", "State::insert_rec"), ("State::remove", "State::remove_rec")):
+        b = prog.body(ST + pub)
+        if b is None:
+            o.missing(pub)
+            continue
+        cs = b.calls_to(ST + rec)
+        ok = len(cs) == 1 and K.const_eval(b.operand_term(cs[0].args[1])) == 0 and K.mentions_field(b.operand_term(cs[0].args[0]), "root", "State") and K.is_arg(b, b.operand_term(cs[0].args[2]), 2)
+        o.check(ok, pub + "|starts-at-root-depth-0", "%s walks from self.root at depth 0 with its own key" % pub, b.span)
+    b = prog.body(ST + "State::remove")
+    if b is not None:
+        g = b.calls_to(ST + "State::get")
+        ok = len(g) == 1 and K.is_arg(b, b.operand_term(g[0].args[1]), 2)
+        o.check(ok, "State::remove|fast-path-same-key", "the presence check uses the same key", b.span)
+    b = prog.body(ST + "split_leaves")
+    if b is None:
+        o.missing("split_leaves")
+    else:
+        ch = [c for c in b.calls() if c.name == ST + "chunk_at"]
+        ok = len(ch) == 2 and all(K.is_arg(b, b.operand_term(c.args[1]), 1) for c in ch) and sorted(
+            (2 if K.mentions_arg(b, b.operand_term(c.args[0]), 2) else 3 if K.mentions_arg(b, b.operand_term(c.args[0]), 3) else 0) for c in ch) == [2, 3]
+        o.check(ok, "split_leaves|chunks-of-both-keys-at-depth", "the two leaves are separated by their own chunks at this depth", b.span)
+        rec = [c for c in b.calls() if c.name == ST + "split_leaves"]
+        okr = len(rec) == 1 and _is_inc(b.operand_term(rec[0].args[0]), lambda x: K.arg_pred(b, 1)(x))
+        if okr:
+            okr = any(a[0] == "eq" and a[2] is True and all(K.mentions_call(x, "chunk_at") for x in a[1]) for a in G.guard_atoms(b, rec[0].bb, prog))
+        o.check(okr, "split_leaves|recurse-on-equal-chunk", "recurses with depth + 1 exactly when both chunks are equal", rec[0].span if rec else b.span)
+    ir = prog.body(ST + "State::insert_rec")
+    if ir is not None:
+        spl = [c for c in ir.calls() if c.name == ST + "split_leaves"]
+        ok = len(spl) == 1 and _is_inc(ir.operand_term(spl[0].args[0]), lambda x: K.arg_pred(ir, 2)(x))
+        o.check(ok, "State::insert_rec|split-at-depth+1", "split_leaves starts one level below the branch that held the leaf", spl[0].span if spl else ir.span)
+
+
+def _is_inc(t, is_base):
+    """t == base + 1 (checked or unchecked form)"""
+    t = K.peel(t)
+    if isinstance(t, tuple) and t[0] == "field" and t[2] == "0":
+        t = t[1]
+    if not (isinstance(t, tuple) and t[0] == "bin" and t[1].startswith("Add")):
+        return False
+    a, c = K.peel(t[2]), K.peel(t[3])
+    return (is_base(a) and K.const_eval(c) == 1) or (is_base(c) and K.const_eval(a) == 1)
